@@ -409,6 +409,8 @@ pub struct GenCfg {
     pub chaos_pct: u32,
     pub allow_timelocks: bool,
     pub allow_hashes: bool,
+    /// make about half of the B leaves time locks (mixed-unit paths become common)
+    pub timelock_heavy: bool,
 }
 
 impl GenCfg {
@@ -422,6 +424,7 @@ impl GenCfg {
             chaos_pct: 0,
             allow_timelocks: true,
             allow_hashes: true,
+            timelock_heavy: false,
         }
     }
 }
@@ -468,6 +471,13 @@ impl<'r> Gen<'r> {
 
     /// A leaf of base type B (with spec type).
     fn leaf_b(&mut self) -> Frag {
+        if self.cfg.timelock_heavy && self.cfg.allow_timelocks && self.rng.coin() {
+            return if self.rng.coin() {
+                Frag::After(*self.rng.pick(&AFTER_VALUES))
+            } else {
+                Frag::Older(*self.rng.pick(&OLDER_VALUES))
+            };
+        }
         loop {
             let r = self.rng.below(100);
             return match r {
@@ -961,6 +971,32 @@ pub fn mutate_frag(rng: &mut Rng, f: &mut Frag, fresh_key: KeyRef) -> Option<&'s
         let r1 = rng.next_u64();
         f.with_node_mut(&mut idx, &mut |node| {
             what = match node {
+                Frag::Thresh(_, xs) if choice >= 4 && matches!(xs.first(), Some(Frag::Thresh(..))) => {
+                    // move a child across the boundary of a nested threshold: the pre-order
+                    // sequence of nodes stays the same, only the arities change
+                    let moved = if choice % 2 == 0 && xs.len() > 1 {
+                        let c = xs.remove(1);
+                        if let Frag::Thresh(_, ys) = &mut xs[0] {
+                            ys.push(c);
+                        }
+                        true
+                    } else if let Frag::Thresh(k2, ys) = &mut xs[0] {
+                        if ys.len() > 1 && *k2 < ys.len() {
+                            let c = ys.pop().unwrap();
+                            xs.insert(1, c);
+                            true
+                        } else {
+                            false
+                        }
+                    } else {
+                        false
+                    };
+                    if moved {
+                        Some("child moved across nested thresh boundary")
+                    } else {
+                        None
+                    }
+                }
                 Frag::Thresh(k, xs) => match choice {
                     0 if *k < xs.len() => {
                         *k += 1;
